@@ -143,9 +143,10 @@ func genBLengthList(w *codewriter, rwctx *golang.ReadWriteContext, varname strin
 }
 
 func genBLengthMap(w *codewriter, rwctx *golang.ReadWriteContext, varname string, depth int) {
-	t := rwctx.Type
-	kt := t.KeyType
-	vt := t.ValueType
+	// rwctx.Type may be a typedef of a map, which carries no KeyType/ValueType:
+	// the sub-contexts always hold the resolved key and value types.
+	kt := rwctx.KeyCtx.Type
+	vt := rwctx.ValCtx.Type
 
 	// map header
 	w.f("off += 6")
